@@ -230,20 +230,26 @@ def base_loader(load_globals=True):
     return _LOADERS[load_globals]
 
 
+_CURRENT = {}
+
+
 class loaded(object):
-    """with loaded(text) as loader: loader has schema (+globals) + text; the model statements are dropped afterwards."""
+    """with loaded(text) as loader: loader has schema (+globals) + text.  The parsed statements of the last text are kept,
+    so that building many metamodels from one text parses it once."""
 
     def __init__(self, text, load_globals=True):
         self.text, self.load_globals = text, load_globals
 
     def __enter__(self):
         self.l, self.n0 = base_loader(self.load_globals)
-        del self.l.statements[self.n0:]
-        self.l.input(self.text)
+        if _CURRENT.get(self.load_globals) != self.text:
+            del self.l.statements[self.n0:]
+            _CURRENT[self.load_globals] = None
+            self.l.input(self.text)
+            _CURRENT[self.load_globals] = self.text
         return self.l
 
     def __exit__(self, *a):
-        del self.l.statements[self.n0:]
         return False
 
 
